@@ -137,6 +137,7 @@ let parse_op (snaps : store array ref) (toks : string list) : op =
   | ["cleanfail"; ttl; q] -> OCleanupFailures (z_of_int t0, z_of_int (int_of_string ttl), num q)
   | ["forcebump"; e] -> OForceBump (num e)
   | ["recover"; e] -> ORecoverEpoch (num e)
+  | ["svcrecover"; m] -> ORecoverEpoch (nn (int_of_string m + 2))   (* service: +1, storage: +1 (BrokerEpochMain.recover_service) *)
   | ["restore"; k] -> ORestore ((!snaps).(int_of_string k))
   | _ -> failwith ("bad op: " ^ Stdlib.String.concat " " toks)
 
